@@ -291,7 +291,7 @@ func ruleR26(c *Ctx) {
 func ruleR17(c *Ctx) {
 	m := c.m
 	info := m.Info
-	props := []string{"C17", "C08"}
+	props := []string{"C17", "C08", "C15"}
 	n := 0
 	for _, u := range c.sortedUnits() {
 		if u.Lit != nil {
